@@ -779,6 +779,12 @@ EGLPNUM_TYPENAME_QSLIB_INTERFACE EGLPNUM_TYPENAME_QSdata *EGLPNUM_TYPENAME_QScop
 	p2->pricing->dI_price = p->pricing->dI_price;
 	p2->pricing->dII_price = p->pricing->dII_price;
 	EGLPNUM_TYPENAME_EGlpNumCopy (p2->pricing->htrigger, p->pricing->htrigger);
+	/* the remaining parameters of QSset_param / QSset_param_EGlpNum */
+	p2->lp->maxiter = p->lp->maxiter;
+	p2->lp->maxtime = p->lp->maxtime;
+	EGLPNUM_TYPENAME_EGlpNumCopy (p2->uobjlim, p->uobjlim);
+	EGLPNUM_TYPENAME_EGlpNumCopy (p2->lobjlim, p->lobjlim);
+	EGLPNUM_TYPENAME_EGlpNumCopy (p2->lp->objbound, p->lp->objbound);
 
 	if (p->qslp->intmarker != 0)
 	{
